@@ -1,5 +1,5 @@
 #!/usr/bin/env python3
-"""C04 round 4 mutation self-test: `NV_REPO=<scratch worktree> python3 notes/C04-mutants.py <A..M>` applies one mutant to the
+"""C04 mutation self-test (rounds 4 and 5): `NV_REPO=<scratch worktree> python3 notes/C04-mutants.py <name>` applies one mutant to the
 working tree (then run `./check C04 --tier quick`, then `git checkout -- .`); outcomes are listed in notes/C04.md"""
 import sys, re
 import os
@@ -96,5 +96,51 @@ def M():  # only the safe-apply path of the same fix is reverted (uncaught neste
     s = open(R + "src/error_context.c").read()
     i = s.rindex("      set_error_state (handler_limit_state);\n")
     open(R + "src/error_context.c", "w").write(s[:i] + s[i + len("      set_error_state (handler_limit_state);\n"):])
+
+def N():  # the string join length check extracted into a helper with a narrower parameter type
+    sub("src/interpret.h", "if ((len) > (size_t)CONFIG_INT (__MAX_STRING_LENGTH__))", "if ((unsigned short)(len) > (size_t)CONFIG_INT (__MAX_STRING_LENGTH__))")
+
+def O():  # regexec charges the evaluation only for matches that succeed (counter updated on one path only)
+    sub("lib/efuns/regexp.c", "  if (eval_cost > 1)\n    eval_cost = (used >= eval_cost - 1) ? 1 : eval_cost - used;", "  if (ret && eval_cost > 1)\n    eval_cost = (used >= eval_cost - 1) ? 1 : eval_cost - used;")
+
+def P():  # call_efun_callback charges exactly one tick per callback: the budget it cached before the call is written back
+    s = open(R + "src/interpret.c").read()
+    i = s.index("svalue_t* call_efun_callback (function_to_call_t * ftc, int n) {")
+    j = s.index("\n}\n", i)
+    body = s[i:j]
+    assert body.count("return v;") >= 1, body[-400:]
+    body = body.replace("  svalue_t *v;\n", "  svalue_t *v;\n  int64_t cost_before;\n", 1)
+    body = body.replace("  if (ftc->narg)\n    push_some_svalues", "  cost_before = eval_cost;\n  if (ftc->narg)\n    push_some_svalues", 1)
+    body = body.replace("return v;", "{ eval_cost = cost_before; return v; }")
+    open(R + "src/interpret.c", "w").write(s[:i] + body + s[j:])
+
+def Q():  # do_catch: pop_context moved in front of the evaluation-cost test (condition moved across a statement)
+    sub("src/frame.c", "      if (get_error_state (ES_MAX_EVAL_COST))\n        {\n          pop_context (&econ);", "      pop_context (&econ);\n      if (get_error_state (ES_MAX_EVAL_COST))\n        {")
+
+def S2():  # error_handler: handler_limit_state is saved on the caught path only (cleanup / bookkeeping skipped on the rarer path)
+    s = open(R + "src/error_context.c").read()
+    i = s.rindex("      handler_limit_state = limit_state;\n")
+    open(R + "src/error_context.c", "w").write(s[:i] + s[i + len("      handler_limit_state = limit_state;\n"):])
+
+def T():  # save_variable compares with the wrong (plausible) limit
+    sub("lib/lpc/object.c", "  if (theSize - 1 > (size_t)CONFIG_INT (__MAX_STRING_LENGTH__))", "  if (theSize - 1 > (size_t)CONFIG_INT (__MAX_ARRAY_SIZE__))")
+
+def U():  # compose_mapping counts the unlinked nodes on the copying path only
+    sub("lib/lpc/mapping.c", "                  deleted++;\n", "                  if (flag)\n                    deleted++;\n")
+
+def V():  # revert fix 187b28d (do_catch at full depth marks its error)
+    sub("src/frame.c", "      set_error_state (ES_STACK_FULL);\n      error (\"*Can't catch too deep recursion error.\");\n    }\n\n  push_control_stack", "      error (\"*Can't catch too deep recursion error.\");\n    }\n\n  push_control_stack")
+
+def W():  # revert fix aceb285 (trace of an error inside the trace without arguments)
+    sub("src/error_context.c", "      dump_trace (0);", "      dump_trace (g_trace_flag);")
+
+def X2():  # revert fix 1ced780 in effect: regmatch no longer stops when the steps are used up
+    sub("lib/efuns/regexp.c", "      if (--regsteps < 0)\n        return (0);", "      --regsteps;")
+
+def Y():  # revert fix 91b4476 (trace of a frame that is not built yet)
+    s = open(R + "src/simulate.c").read()
+    g = "  if (num_arg != -1 && fp + num_arg + num_local - 1 > sp)\n    num_arg = -1;\n"
+    assert s.count(g) == 2
+    open(R + "src/simulate.c", "w").write(s.replace(g, ""))
 
 globals()[sys.argv[1]]()
